@@ -122,6 +122,11 @@ func (s *Server) full(name string, args [][]byte) [][]byte {
 // exec executes one command on the keyspace and returns its reply.
 func (s *Server) exec(cs *connState, name string, args [][]byte) resp.Reply {
 	db := cs.db
+	s.curOrigin, s.curConn = cs.name, cs.id
+	if name == "client" && len(args) == 2 && strings.EqualFold(string(args[0]), "setname") {
+		cs.name = string(args[1])
+		return ok
+	}
 	if s.GenericWrites && len(args) > 0 && (!infraCmd[name] || ((name == "eval" || name == "evalsha") && s.Eval == nil)) && !bytes.HasPrefix(args[0], []byte("redis-gunyu-checkpoint")) && !bytes.HasPrefix(args[0], []byte("redis-gunyu-bisync")) && !bytes.HasPrefix(args[0], []byte("/redis-gunyu")) {
 		// log-only mode: business commands are recorded and acknowledged, never interpreted
 		s.propagate(db, s.full(name, args)...)
